@@ -116,17 +116,51 @@ def ds_s(out) -> str:
 
 
 # ------------------------------------------------------------------ real-side construction
-def make_xx(oxr, g, nt, nb, dask=False, dtype="int16", **attrs):
+def make_xx(oxr, g, nt, nb, dask=False, dtype="int16", cn="spatial_ref", route="wrap", axis=None, **attrs):
+    """registration routes / keywords: wrap_xr(crs_coord_name=, axis=, time=, nodata=, **attrs),
+    xr_zeros(chunks=, time=, crs_coord_name=), wrap_xr(crs_coord_name=None) + .odc.assign_crs(crs, crs_coord_name=)"""
     ny, nx = g.shape
     shape = (*(() if nt is None else (nt,)), ny, nx, *(() if nb is None else (nb,)))
+    chunks = tuple(max(1, (s + 1) // 2) for s in shape)
+    time = None if nt is None else [f"2020-01-{i + 1:02d}" for i in range(nt)]
+    if route == "zeros" and nb is None:
+        return oxr.xr_zeros(g, dtype=dtype, chunks=chunks if dask else None, time=time, crs_coord_name=cn, **attrs)
     if dask:
         import dask.array as da
 
-        im = da.zeros(shape, dtype=dtype, chunks=tuple(max(1, (s + 1) // 2) for s in shape))
+        im = da.zeros(shape, dtype=dtype, chunks=chunks)
     else:
         im = np.zeros(shape, dtype=dtype)
-    time = None if nt is None else [f"2020-01-{i + 1:02d}" for i in range(nt)]
-    return oxr.wrap_xr(im, g, time=time, **attrs)
+    kw = {} if axis is None else {"axis": axis}
+    if route == "assign":
+        xx = oxr.wrap_xr(im, g, time=time, crs_coord_name=None, **kw, **attrs)
+        return xx.odc.assign_crs(g.crs, crs_coord_name=cn)
+    return oxr.wrap_xr(im, g, time=time, crs_coord_name=cn, **kw, **attrs)
+
+
+def cache_history(rng, *crss):
+    """process-global cache histories that user code may create before the call under test:
+    transformers for the pair in both axis orders, CRS objects with / without `.epsg` having been read"""
+    from odc.geo.crs import CRS
+
+    objs = []
+    for c in crss:
+        if c is None:
+            continue
+        o = c if isinstance(c, CRS) else (CRS(c) if not str(c).lower().startswith("utm") else None)
+        if o is not None:
+            objs.append(o)
+            if rng.random() < 0.5:
+                _ = o.epsg
+    if len(objs) >= 2 and rng.random() < 0.7:
+        a, b = objs[0], objs[1]
+        for xy in rng.sample([False, True], rng.randint(1, 2)):
+            try:
+                a.transformer_to_crs(b, always_xy=xy)
+                if rng.random() < 0.5:
+                    b.transformer_to_crs(a, always_xy=xy)
+            except Exception:  # pylint: disable=broad-except
+                pass
 
 
 def apply_ops(xx, ops, flip=[0]):
@@ -219,6 +253,16 @@ def exact_geobox(rng, Affine, GeoBox, kind, shape=None):
         a, b = rng.choice([(3, 4), (4, 3), (0, 1), (5, 12), (0.75, 1), (8, 6), (0, 30)])
         s = rng.choice([1, -1])
         A = Affine(a, b, tx, s * b, -s * a, ty) if rng.random() < 0.5 else Affine(a, -b, tx, b, a, ty)
+    elif kind == "tiny-rot":
+        # tiny but non-zero rotation / shear around the 1e-10 tolerance of is_affine_st (dyadic: 2**-20 .. 2**-40),
+        # small pixels (degrees), larger shapes
+        r = 2.0 ** -rng.choice([19, 16, 12])
+        b = rng.choice([1, -1]) * 2.0 ** -rng.randint(20, 40)
+        d = rng.choice([0, -b, b, rng.choice([1, -1]) * 2.0 ** -rng.randint(20, 40)])
+        if shape is None:
+            ny, nx = rng.choice([3, 40, 300]), rng.choice([5, 64, 500])
+        A = Affine(r, b, 151.25, d, -r, -33.75)
+        crs = rng.choice(["EPSG:4326", "EPSG:4326", "EPSG:3857", None])
     else:  # sheared
         A = Affine(rng.choice([1, 2, 10]), rng.choice([0.5, -1, 3]), tx, rng.choice([0, 0, 0.25]), rng.choice([-1, -2, 10]), ty)
     return GeoBox((ny, nx), A, crs)
@@ -248,6 +292,17 @@ def float_geobox(rng, Affine, GeoBox, kind):
         A = Affine(-r, 0, tx, 0, r, ty)
     elif kind == "rotated":
         A = Affine.translation(tx, ty) * Affine.rotation(rng.uniform(1, 359)) * Affine.scale(r, -r)
+    elif kind == "tiny-rot":
+        # off-diagonal terms anywhere in 1e-14 .. 1e-4: small pixel sizes x small angles, on large shapes,
+        # so that a label-based (rotation-less) recovery would be off by more than 0.01 px
+        ny, nx = rng.choice([600, 1500, 4000]), rng.choice([800, 2500, 5000])
+        r = rng.choice([2e-6, 1e-5, 2.5e-4, 0.3, 30])
+        off = 10 ** rng.uniform(-14, -4)
+        ang = min(off / r, 0.3)
+        if rng.random() < 0.5:
+            A = Affine.translation(tx, ty) * Affine.rotation(math.degrees(ang) * rng.choice([1, -1])) * Affine.scale(r, -r)
+        else:
+            A = Affine(r, off * rng.choice([1, -1]), tx, rng.choice([0, off / 3]), -r, ty)
     else:
         A = Affine.translation(tx, ty) * Affine.shear(rng.uniform(-30, 30), rng.uniform(-10, 10)) * Affine.scale(r, -r)
     return GeoBox((ny, nx), A, crs)
@@ -285,13 +340,26 @@ def sizes_of(g, nt, nb):
     return dims, sizes
 
 
+ST_TOL = 1e-10  # documented tolerance of is_affine_st: below it a box is *treated as* axis-aligned
+
+
 def klass(g) -> str:
     if hasattr(g, "_mapping"):
         return "gcp"
     A = g.affine
-    if A.b == 0 and A.d == 0:
+    if abs(A.b) < ST_TOL and abs(A.d) < ST_TOL:
         return "north-up" if (A.a > 0 and A.e < 0) else "mirrored"
     return "rotated"
+
+
+def band_allow(g):
+    """world displacement the documented 1e-10 tolerance of is_affine_st may cause (0 unless 0 < |b|,|d| < 1e-10)"""
+    if hasattr(g, "_mapping"):
+        return Fraction(0)
+    A = g.affine
+    if abs(A.b) < ST_TOL and abs(A.d) < ST_TOL and (A.b != 0 or A.d != 0):
+        return abs(Fraction(A.b)) * (g.shape[0] + 1) + abs(Fraction(A.d)) * (g.shape[1] + 1)
+    return Fraction(0)
 
 
 # ------------------------------------------------------------------ oracle: pixel locations
@@ -346,10 +414,13 @@ def location_oracle(R: Run, g, xx, ops, dims, sizes, case, tag, exact):
                 gx, gy = fr_apply(r.affine, Fraction(2 * j + 1, 2), Fraction(2 * i + 1, 2))
                 px = max(abs(Fraction(v)) for v in tuple(g.affine)[:2] + tuple(g.affine)[3:5]) or 1
                 scale = max(abs(wx), abs(wy), px * max(g.shape), 1)
-                err = float(max(abs(gx - wx), abs(gy - wy)) / scale)
+                err = float(max(max(abs(gx - wx), abs(gy - wy)) - band_allow(g), 0) / scale)
                 lim = 0.0 if exact else 1e-12
             if err > lim and err > worst:
                 worst, bad = err, (i, j, oi, oj, float(gx), float(gy), float(wx), float(wy))
+    if bad is not None and cls != "gcp":
+        pxs = float(max(abs(Fraction(v)) for v in tuple(g.affine)[:2] + tuple(g.affine)[3:5]) or 1)
+        case = dict(case, displacement_px=max(abs(bad[4] - bad[6]), abs(bad[5] - bad[7])) / pxs)
     R.oracle(bad is None, key, case,
              f"pixel (row,col)={bad[:2] if bad else None} (original {bad[2:4] if bad else None}) is mapped to "
              f"{bad[4:6] if bad else None} but was at {bad[6:] if bad else None} (rel err {worst:.3g}) after {tag}")
@@ -389,15 +460,19 @@ def roundtrip_eq_oracle(R: Run, g, xx, case, exact):
                               np.asarray([(~g._affine) * tuple(p) for p in g._mapping._pix]), rtol=1e-12, atol=1e-12))
         R.oracle(ok, key, case, f"recovered {r!r} pix={r._mapping._pix.tolist()[:3]} differs from the original GCP box")
         return
-    if exact:
+    inband = band_allow(g) > 0
+    if exact and not inband:
         ok = r == g
+    elif exact:
+        A = g.affine
+        ok = r == type(g)(g.shape, type(A)(A.a, 0, A.c, 0, A.e, A.f), g.crs)
     else:
         px = max(abs(v) for v in tuple(g.affine)[:2] + tuple(g.affine)[3:5]) or 1.0
         tol_lin = 1e-9 * px
         tol_off = 1e-9 * max(abs(g.affine.c), abs(g.affine.f), px * max(g.shape), 1.0)
         A, B = tuple(g.affine)[:6], tuple(r.affine)[:6]
         ok = (tuple(r.shape) == tuple(g.shape) and r.crs == g.crs
-              and all(abs(A[i] - B[i]) <= tol_lin for i in (0, 1, 3, 4))
+              and all(abs(A[i] - B[i]) <= tol_lin + (ST_TOL if inband and i in (1, 3) else 0) for i in (0, 1, 3, 4))
               and all(abs(A[i] - B[i]) <= tol_off for i in (2, 5)))
     R.oracle(bool(ok), key, case, f"wrap_xr -> .odc.geobox gives {r!r}, original {g!r}")
 
@@ -423,11 +498,12 @@ def run(R: Run):
     corpus(R, mods)
 
     # --- exact stream: wrap -> ops -> recover, compared with the model
-    kinds = ["north-up", "mirrored", "rotated", "sheared", "gcp"]
+    kinds = ["north-up", "mirrored", "rotated", "sheared", "gcp", "tiny-rot"]
     small_shapes = [(1, 1), (1, 5), (5, 1), (2, 2), (1, 2), (2, 1), (3, 4)]
-    cases = [(k, s) for k in kinds[:4] for s in small_shapes]
-    for _ in range(R.pick(260, 2600)):
+    cases = [(k, s) for k in kinds[:4] + ["tiny-rot"] for s in small_shapes]
+    for _ in range(R.pick(300, 3000)):
         cases.append((rng.choice(kinds), None))
+    names = ["spatial_ref", "spatial_ref", "crs", "foo", "ref_1"]
     for kind, shp in cases:
         if kind == "gcp":
             g = gcp_geobox(rng, mods, exact=True)
@@ -436,41 +512,64 @@ def run(R: Run):
         nt = rng.choice([None, None, 1, 2])
         nb = rng.choice([None, None, 3])
         dask = rng.random() < 0.3
+        cn = rng.choice(names)
+        route = "zeros" if (nb is None and rng.random() < 0.3) else "wrap"
         dims, sizes = sizes_of(g, nt, nb)
         ops = [] if shp is not None and rng.random() < 0.5 else rnd_ops(rng, dims, sizes, nt is None and nb is None)
-        line = f"c09 rt {src_s(g)} {opt_s(nt)} {opt_s(nb)} {list_s(ops, op_s)}"
-        case = {"line": line, "dask": dask}
+        line = f"c09 rt {src_s(g)} {opt_s(nt)} {opt_s(nb)} {cn} {list_s(ops, op_s)}"
+        case = {"line": line, "dask": dask, "route": route}
         box = []
 
         def f():
-            xx = make_xx(oxr, g, nt, nb, dask)
+            xx = make_xx(oxr, g, nt, nb, dask, cn=cn, route=route)
             box.append(xx)
             yy = apply_ops(xx, ops)
             box.append(yy)
             return arr_s(yy)
 
-        sig = f"rt|{klass(g)}|{'1px|' if 1 in tuple(g.shape) else ''}ops{min(len(ops), 3)}" + ("|dask" if dask else "")
+        sig = (f"rt|{kind if kind == 'tiny-rot' else klass(g)}|{'1px|' if 1 in tuple(g.shape) else ''}ops{min(len(ops), 3)}"
+               + ("|dask" if dask else "") + ("|name" if cn != "spatial_ref" else ""))
         R.corr(line, f, sig=sig)
         if len(box) == 2:
             if not ops:
                 roundtrip_eq_oracle(R, g, box[1], case, exact=True)
             location_oracle(R, g, box[1], ops, dims, sizes, case, list_s(ops, op_s), exact=True)
+            # ... and after every step of the history, not only at its end
+            if ops and len(ops) <= 6:
+                cur = box[0]
+                for k in range(1, len(ops)):
+                    try:
+                        cur = apply_ops(cur, ops[k - 1:k])
+                    except Exception:  # pylint: disable=broad-except
+                        break
+                    location_oracle(R, g, cur, ops[:k], dims, sizes, dict(case, step=k), list_s(ops[:k], op_s), exact=True)
 
     # --- float stream: arbitrary doubles, oracle only
-    for _ in range(R.pick(300, 3000)):
-        kind = rng.choice(kinds)
+    for _ in range(R.pick(340, 3400)):
+        kind = rng.choice(kinds + ["tiny-rot"])
         g = gcp_geobox(rng, mods, exact=False) if kind == "gcp" else float_geobox(rng, Affine, GeoBox, kind)
-        nt = rng.choice([None, None, 2])
-        nb = rng.choice([None, None, 2])
+        big = max(g.shape) > 100
+        nt = rng.choice([None, None, 2]) if not big else None
+        nb = rng.choice([None, None, 2]) if not big else None
         dims, sizes = sizes_of(g, nt, nb)
         ops = [] if rng.random() < 0.2 else rnd_ops(rng, dims, sizes, False)
         ops = [o for o in ops if not (o[0] == "s" and o[4] == 0)]
-        case = {"float": True, "geobox": src_s(g), "nt": nt, "nb": nb, "ops": list_s(ops, op_s)}
+        # option matrix: CRS coordinate name, registration route, axis= / scalar-vs-list time
+        cn = rng.choice(["spatial_ref", "spatial_ref", "crs", "foo"])
+        route = rng.choice(["wrap", "wrap", "zeros", "assign"]) if g.crs is not None and kind != "gcp" else "wrap"
+        axis = rng.choice([None, None, 0 if nt is None else 1])
+        case = {"float": True, "geobox": src_s(g), "nt": nt, "nb": nb, "ops": list_s(ops, op_s), "crs_coord_name": cn,
+                "route": route, "axis": axis}
         try:
-            xx = make_xx(oxr, g, nt, nb, rng.random() < 0.2)
+            xx = make_xx(oxr, g, nt, nb, rng.random() < 0.2, cn=cn, route=route, axis=axis)
             yy = apply_ops(xx, ops)
         except (IndexError, ValueError):
             continue
+        if route == "assign":
+            # assign_crs writes no GeoTransform: one-pixel axes of world labels have no fallback (as without CRS)
+            idx = orig_index(ops, dims, sizes)
+            if klass(g) != "rotated" and any(v is not None and len(v) == 1 for v in (idx[g.dimensions[0]], idx[g.dimensions[1]])):
+                continue
         if not ops:
             roundtrip_eq_oracle(R, g, yy, case, exact=False)
         location_oracle(R, g, yy, ops, dims, sizes, case, list_s(ops, op_s), exact=False)
@@ -601,34 +700,43 @@ def reproject_part(R: Run, mods):
         if any(v is None or len(v) == 0 for v in idx.values()):
             ops = []
         as_ds = rng.random() < 0.45
+        cn = rng.choice(["spatial_ref", "spatial_ref", "crs", "foo"])
+        post = [rng.choice([("arith",), ("type",), ("pickle",)]) for _ in range(rng.choice([0, 1, 1, 2]))]
         attr_keys = list(attrs)
         kind = "ds" if as_ds else "da"
         case = {"reproject": kind, "src": src_s(src), "dst": src_s(dst), "nt": nt, "nb": nb, "dask": dask,
-                "attrs": attr_keys, "ops": list_s(ops, op_s), "dst_nodata": dst_nodata}
+                "attrs": attr_keys, "ops": list_s(ops, op_s), "dst_nodata": dst_nodata, "crs_coord_name": cn,
+                "post": list_s(post, op_s)}
 
         def mk():
-            xx = make_xx(oxr, src, nt, nb, dask, dtype="float32", **attrs)
+            if cn != "spatial_ref" and "grid_mapping" in attrs:
+                attrs["grid_mapping"] = cn
+            xx = make_xx(oxr, src, nt, nb, dask, dtype="float32", cn=cn, **attrs)
             return apply_ops(xx, ops)
 
         if not as_ds:
-            line = (f"c09 repr {src_s(src)} {opt_s(nt)} {opt_s(nb)} {list_s(ops, op_s)} {list_s(attr_keys)} "
-                    f"{src_s(dst)} {'T' if dst_nodata is not None else 'F'}")
+            line = (f"c09 repr {src_s(src)} {opt_s(nt)} {opt_s(nb)} {cn} {list_s(ops, op_s)} {list_s(attr_keys)} "
+                    f"{src_s(dst)} {'T' if dst_nodata is not None else 'F'} {list_s(post, op_s)}")
             box = []
 
             def f():
                 out = oxr.xr_reproject(mk(), dst, dst_nodata=dst_nodata)
                 box.append(out)
-                return out_s(out)
+                out2 = apply_ops(out, post)
+                box.append(out2)
+                return out_s(out2)
 
-            R.corr(line, f, sig=f"repr|da|{klass(src)}->{klass(dst)}" + ("|dask" if dask else ""))
+            R.corr(line, f, sig=f"repr|da|{klass(src)}->{klass(dst)}" + ("|dask" if dask else "") + ("|name" if cn != "spatial_ref" else ""))
             if box:
                 reproject_oracle(R, box[0], dst, case, "da")
+                if len(box) > 1 and post:
+                    reproject_oracle(R, box[1], dst, case, "da|after-op", encoding_kept=all(o[0] == "pickle" for o in post))
             else:
                 R.oracle(False, "reproject|da|raises", case, "xr_reproject raised")
         else:
             dsattrs = [k for k in ("crs", "title", "grid_mapping") if rng.random() < 0.5]
             extra = rng.random() < 0.5
-            line = (f"c09 reprds {src_s(src)} {opt_s(nt)} {opt_s(nb)} {list_s(ops, op_s)} {list_s(attr_keys)} "
+            line = (f"c09 reprds {src_s(src)} {opt_s(nt)} {opt_s(nb)} {cn} {list_s(ops, op_s)} {list_s(attr_keys)} "
                     f"{list_s(dsattrs)} {'T' if extra else 'F'} {src_s(dst)}")
             box = []
 
@@ -637,7 +745,7 @@ def reproject_part(R: Run, mods):
                 dv = {"a": a, "b": a * 2}
                 if extra:
                     dv["c"] = xr.DataArray(np.zeros(3), dims=("t",), coords={"t": ["u", "v", "w"]})
-                ds = xr.Dataset(dv, attrs={k: ("spatial_ref" if k == "grid_mapping" else "stale") for k in dsattrs})
+                ds = xr.Dataset(dv, attrs={k: (cn if k == "grid_mapping" else "stale") for k in dsattrs})
                 out = oxr.xr_reproject(ds, dst)
                 box.append(out)
                 return ds_s(out)
@@ -646,7 +754,13 @@ def reproject_part(R: Run, mods):
             if box:
                 out = box[0]
                 for nm in ("a", "b"):
-                    reproject_oracle(R, out[nm], dst, case, f"ds|var")
+                    reproject_oracle(R, out[nm], dst, case, "ds|var")
+                    if post:
+                        try:
+                            reproject_oracle(R, apply_ops(out[nm], post), dst, case, "ds|var|after-op",
+                                             encoding_kept=all(o[0] == "pickle" for o in post))
+                        except Exception as e:  # pylint: disable=broad-except
+                            R.oracle(False, "reproject|ds|var|after-op|raises", case, repr(e))
                 reproject_oracle(R, out, dst, case, "ds")
             else:
                 R.oracle(False, "reproject|ds|raises", case, "xr_reproject raised")
@@ -659,7 +773,10 @@ def reproject_part(R: Run, mods):
         as_ds = rng.random() < 0.5
         case = {"reproject": "to-crs", "src": src_s(src), "how": how, "ds": as_ds}
         try:
-            xx = make_xx(oxr, src, None, None, False, dtype="float32", crs="stale", nodata=0, keep="me")
+            cn = rng.choice(["spatial_ref", "crs"])
+            case["crs_coord_name"] = cn
+            xx = make_xx(oxr, src, None, None, False, dtype="float32", cn=cn, crs="stale", nodata=0, keep="me")
+            cache_history(rng, src.crs, how)
             want = xx.odc.output_geobox(how)
             obj = xr.Dataset({"a": xx, "b": xx + 1}, attrs={"crs": "stale"}) if as_ds else xx
             out = oxr.xr_reproject(obj, how)
@@ -668,8 +785,12 @@ def reproject_part(R: Run, mods):
             R.oracle(False, "reproject|to-crs|raises", case, repr(e))
 
 
-def reproject_oracle(R: Run, out, dst, case, kind, approx=False):
+def reproject_oracle(R: Run, out, dst, case, kind, approx=False, encoding_kept=True):
     import xarray as xr
+
+    stale = sorted(str(k) for k, c in out.coords.items()
+                   if c.ndim == 0 and ("spatial_ref" in c.attrs or "crs_wkt" in c.attrs) and str(k) != "spatial_ref")
+    R.oracle(not stale, f"reproject|{kind}|stale-crs-coord", case, f"CRS coordinate(s) of the source survive in the output: {stale}")
 
     r = out.odc.geobox
     if r is None:
@@ -687,7 +808,7 @@ def reproject_oracle(R: Run, out, dst, case, kind, approx=False):
     objs = [out] + ([v for v in out.data_vars.values() if v.odc.geobox is not None] if isinstance(out, xr.Dataset) else [])
     left = sorted({k for o in objs for k in o.attrs if k in SPATIAL})
     R.oracle(not left, f"reproject|{kind}|stale-attrs", case, f"stale spatial attributes survive: {left}")
-    if isinstance(out, xr.DataArray):
+    if isinstance(out, xr.DataArray) and encoding_kept:
         gm = out.encoding.get("grid_mapping")
         R.oracle(gm == "spatial_ref" and "spatial_ref" in out.coords, f"reproject|{kind}|grid-mapping", case, f"grid_mapping={gm}")
     R.oracle("keep" in (out.attrs if isinstance(out, xr.DataArray) else out["a"].attrs), f"reproject|{kind}|other-attrs-kept",
